@@ -363,7 +363,9 @@ ROUTINES = {"fixed_grid": lambda c: run_fixed_grid(c)[0], "trajectory": run_traj
 def main():
     cases = json.load(open(sys.argv[1]))["cases"]
     res = []
-    for c in cases:
+    for k_, c in enumerate(cases):
+        if k_ % 20 == 19:
+            jax.clear_caches()
         try:
             res.append(ROUTINES[c.get("routine", "fixed_grid")](c))
         except Exception as e:  # noqa: BLE001
